@@ -789,6 +789,15 @@ func init() {
 					}
 				}
 			}
+			// DataFileSize 20: the second pre-put already rotates, so key 0 lives in an OLDER file and every
+			// writer below rotates again while the reader resolves a position in an older file
+			for _, pr := range [][2]int{{1, 0}, {1, 2}, {1, 8}, {1, 9}, {4, 0}, {5, 0}, {1, 7}} {
+				pp := pre
+				if pr[1] == 9 {
+					pp = pre - 1
+				}
+				add(fmt.Sprintf("older-file-%s+%s", callNames[pr[0]], callNames[pr[1]]), p("call0", pr[0], "call1", pr[1], "race", 1, "index", 3, "shards", 1, "preempt", pp, "dfs_lo", 20, "dfs_hi", 20))
+			}
 			if tier == "quick" {
 				add("hashmap-Put+Delete", p("call0", 0, "call1", 2, "race", 1, "index", 3, "shards", 2, "preempt", 2))
 				add("skiplist-Iterate+Put", p("call0", 5, "call1", 0, "race", 1, "index", 2, "shards", 1, "preempt", 2))
@@ -803,7 +812,7 @@ func init() {
 			"this replaces the order-variable SMT query sketched in the design: with all schedules inside the preemption bound explored anyway, the per-schedule happens-before check finds the same unordered pairs and is far simpler to trust",
 			"schedule violations are not replayed natively"},
 		Bounds: map[string]string{
-			"quick":    "every unordered pair (55) of {Put, Get, Delete, ListKeys, Fold, iterator scan, Stat, Sync, batch+Commit, Merge} on a pre-populated B-tree database (DataFileSize 100 so rotations happen inside the run), <= 2 preemptions (1 with Merge); plus hash-map/skip-list samples",
+			"quick":    "every unordered pair (55) of {Put, Get, Delete, ListKeys, Fold, iterator scan, Stat, Sync, batch+Commit, Merge} on a pre-populated B-tree database (DataFileSize 100 so rotations happen inside the run), <= 2 preemptions (1 with Merge); readers against writers with DataFileSize 20 (the read key lives in an older file, every write rotates); plus hash-map/skip-list samples",
 			"thorough": "all pairs for every index type with <= 3 preemptions, two triples",
 		},
 		Outside: "4..16 goroutines; races inside the Go runtime/stdlib; the background merge ticker; weak-memory effects",
